@@ -41,7 +41,7 @@ REQUIRED = {'sched.schedules': 500, 'sched.with_switch': 300, 'hook.call_points'
             'pool.statements': 40, 'reach.runner.call': 5000,
             'sched.line_schedules': 500, 'sched.line_with_switch': 300, 'hook.line_points': 50000,
             'sched.cold_schedules': 500, 'sched.cold_with_switch': 300,
-            'sched.cold_engine_schedules': 300}
+            'sched.cold_engine_schedules': 300, 'evalcache.distinct_texts': 300}
 
 POOL = c09.POOL + [
     # strings / regex / datetime / math / branching / system: every library module
@@ -342,7 +342,7 @@ def plan(tier, seed):
         shards.append({'name': 'cold-engine-%d' % p, 'kind': 'cold', 'engine': True, 'count': 350 if not thorough else 3000,
                        'timeout': 3000})
     shards.append({'name': 'free', 'kind': 'free', 'threads': 6, 'iters': 120 if not thorough else 2500, 'timeout': 3000})
-    shards.append({'name': 'evalcache', 'kind': 'evalcache', 'threads': 4, 'iters': 60 if not thorough else 600})
+    shards.append({'name': 'evalcache', 'kind': 'evalcache', 'threads': 6, 'iters': 3000 if not thorough else 15000, 'timeout': 3000})
     if thorough:
         shards.append({'name': 'yield-injection', 'kind': 'yieldinj', 'threads': 4, 'iters': 150, 'timeout': 3000})
     return shards
@@ -370,6 +370,10 @@ COLD_POOL = SHORT + ['$.items.distinct().len()', '$.items.sum()', '$.items.toDic
                      '$.items.slice(2).len()', 'switch($.n > 3 => 1, true => 2)', 'selectCase($.n > 3)', 'coalesce(null, $.n)']
 
 
+RECURSIVE = ['def(r, switch($ > 0 => r($ - 1) + 1, true => 0)) -> r(30)',
+             'def(r, switch($ > 0 => r($ - 1) + 1, true => 0)) -> [r(28), r(3)]',
+             'def(fib, switch($ < 2 => $, true => fib($ - 1) + fib($ - 2))) -> fib(9)',
+             'def(down, switch($ > 0 => [$] + down($ - 1), true => [])) -> down(25).len()']
 COLD_OPTIONS = {'yaql.limitIterators': 12, 'yaql.memoryQuota': 20000, 'yaql.convertSetsToLists': True,
                 'yaql.convertTuplesToLists': False}
 OPTION_SENSITIVE = ['[1, 2, 2].toSet()', '$.items.toSet()', 'range(20).toList()', 'range(13).select($ + 1).len()', "'x' * 30000",
@@ -624,6 +628,10 @@ def _threads(mon, rec, spec, rng, worker_eval, label, count_key):
     for p in plans:
         for i in range(0, len(p), 3):
             p[i] = (pool[i % 7], i % 4)
+        # ... among them a deeply recursive def()-made function, which every thread starts with and comes back to: the
+        # evaluations are then deep inside their recursions at the same time
+        for i in range(0, len(p), 10):
+            p[i] = (RECURSIVE[(i // 10) % len(RECURSIVE)], i % 4)
     wanted = {}
     for p in plans:
         for t, s in p:
@@ -682,8 +690,20 @@ def _evalcache(spec, mon, rec, rng):
             return ('value', c09.freeze(yaql.eval(t, data=pool_doc(s))))
         except Exception as e:
             return ('error', type(e).__name__)
-    pool = [p for p in POOL + SHORT if '$hostvar' not in p and 'hostFunc' not in p and '$n' not in p]
-    plans = [[(rng.choice(pool), rng.randrange(4)) for _ in range(spec['iters'])] for _ in range(spec['threads'])]
+    pool = [p for p in POOL + SHORT if '$hostvar' not in p and 'hostFunc' not in p and '$n' not in p and all(
+        h not in p for h in ('helper', 'add2', 'twice', 'hostAny', 'hostChain', 'rawlist', 'rawdict'))]
+    # far more distinct texts than any cache is likely to hold at once: half of the threads stream never-seen texts
+    # (whatever the cache does when it is full happens again and again), the others keep evaluating a few cheap hot
+    # texts (and are, most of the time, somewhere between looking the text up and evaluating it)
+    many = ['$.n + %d' % i for i in range(150)] + ['[%d, $.n].len() + %d' % (i, i) for i in range(150)]
+    hot = ['$.n', '$.name', '$.n + 1', '$.items.len()']
+    plans = []
+    for th in range(spec['threads']):
+        if th % 2 == 0:
+            plans.append([('$.n + %d' % (100000 * (th + 1) + i) if i % 4 else rng.choice(many), rng.randrange(4)) for i in range(spec['iters'])])
+        else:
+            plans.append([(rng.choice(hot) if i % 10 else rng.choice(pool), rng.randrange(4)) for i in range(spec['iters'] * 4)])
+    rec.count('evalcache.distinct_texts', len({t for p in plans for t, s_ in p}))
     wanted = {}
     ref_eng = yq.engine()
     ref_ctx = yaql.create_context()
